@@ -7,6 +7,11 @@ props = [json.loads(l) for l in open(os.path.join(V, "properties.jsonl"))]
 
 # property id -> (category, technique, level text, level note) ; absent = not claimed (reason in NOT_APPLICABLE)
 CLAIMS = {
+ "C19": ("exploration",
+         "runtime monitoring: differential isolation monitor (B interleaved with A on a second instance vs B alone on a fresh thread), instance-creation probe after every step, snapshot of the shared macro table around every step",
+         "random program pairs with colliding names are interleaved form by form over two interpreter instances on one thread under several random interleavings; A defines and redefines macros (cond, let, or ...), rebinds builtins, fails imports and raises errors. Every record of B (value, error, tick trace, output) must equal the record of B run alone on a fresh thread, a third instance must be constructible after every step of A, and the bundled macro table must be unchanged after every step.",
+         "differential: B alone is the reference (B is also filtered through the reference evaluator at generation)"),
+
  "C13": ("exploration",
          "runtime monitoring: differential oracle (reference module system inside the reference evaluator) over random library/program scenarios with stateful libraries and colliding names",
          "random scenarios of 2-5 libraries and an importing program (a stateful counter library read through several import paths, libraries importing libraries, renamed and unexported internals, importer definitions colliding with library internals and with (scheme base), redefinition of imported names, a library referring to importer-only names) run on the real interpreter; every form's result is judged by a reference module system with one instance per program.",
